@@ -650,7 +650,7 @@ COMMANDS = ["track", "list", "step", "checkignore", "root", "recheck"]
 # its own configuration, so `-c git.command=<shim>` does not reach its Git calls and no argv can be compared
 INIT = "init"
 READONLY = {"list", "checkignore", "root"}
-SETTINGS = ["default", "auto_stage", "nogit", "skipgit", "tobranch"]
+SETTINGS = ["default", "auto_stage", "nogit", "skipgit", "tobranch", "nogit_stage"]
 USER_FILES = {"src/a.txt": (1, 1), "notes.txt": (1,), "docs/u.txt": (1,), "del.txt": (1,), "p24.txt": (1, 1), "sub/.gitignore": (1,)}
 
 
@@ -734,6 +734,9 @@ def xvc_args(cmd, setting):
         g += ["-c", "git.auto_commit=false", "-c", "git.auto_stage=true"]
     elif setting == "nogit":
         g += ["-c", "git.use_git=false"]
+    elif setting == "nogit_stage":
+        # Git use switched off wins over auto_stage: no Git call at all
+        g += ["-c", "git.use_git=false", "-c", "git.auto_commit=false", "-c", "git.auto_stage=true"]
     elif setting == "skipgit":
         g += ["--skip-git"]
     elif setting == "tobranch":
@@ -747,7 +750,7 @@ def xvc_args(cmd, setting):
 
 def setting_flags(setting):
     """use_git, auto_commit, auto_stage, skip_git, to_branch"""
-    return {"default": (1, 1, 0, 0, "-"), "auto_stage": (1, 0, 1, 0, "-"), "nogit": (0, 1, 0, 0, "-"),
+    return {"default": (1, 1, 0, 0, "-"), "auto_stage": (1, 0, 1, 0, "-"), "nogit": (0, 1, 0, 0, "-"), "nogit_stage": (0, 0, 1, 0, "-"),
             "skipgit": (1, 1, 0, 1, "-"), "tobranch": (1, 1, 0, 0, "feat")}[setting]
 
 
@@ -857,8 +860,8 @@ def oracle(repo, before, after, cmd, setting, xvc_touched):
     for p in sorted(set(after["cached_names"]) - set(before["cached_names"])):
         if not is_managed(p):
             bad.append("%s became staged" % p)
-        elif setting in ("default", "tobranch", "nogit", "skipgit"):
-            bad.append("managed file %s left staged although auto_stage is off" % p)
+        elif setting in ("default", "tobranch", "nogit", "skipgit", "nogit_stage"):
+            bad.append("managed file %s left staged although %s" % (p, "Git use is off" if setting == "nogit_stage" else "auto_stage is off"))
     for p in before["index"]:
         if not is_managed(p) and before["index"][p] != after["index"].get(p):
             bad.append("index entry of %s changed: %s -> %s" % (p, before["index"][p], after["index"].get(p)))
@@ -905,7 +908,7 @@ def oracle(repo, before, after, cmd, setting, xvc_touched):
             for p in (x.strip("\n") for x in out.split("\0")):
                 if p and not is_managed(p):
                     bad.append("commit %s made by xvc contains user file %s" % (c[:8], p))
-    if new and (cmd in READONLY or setting in ("nogit", "skipgit", "auto_stage")):
+    if new and (cmd in READONLY or setting in ("nogit", "skipgit", "auto_stage", "nogit_stage")):
         bad.append("%d commit(s) created by %s" % (len(new), "a read-only command" if cmd in READONLY else "a run with " + setting))
     return bad, len(new)
 
@@ -1036,7 +1039,7 @@ def pick_scenarios(rng, tier):
     for s in al:
         k = (tuple(s["features"]), s["command"], s["setting"])
         if len(s["features"]) <= 1 and (s["setting"] == "default" or (s["command"] in ("track", "list") and s["setting"] in ("auto_stage", "tobranch"))
-                                        or (s["command"] == "track" and s["setting"] in ("nogit", "skipgit"))):
+                                        or (s["command"] == "track" and s["setting"] in ("nogit", "skipgit", "nogit_stage"))):
             must.append(s); seen.add(k)
     rest = [s for s in al if (tuple(s["features"]), s["command"], s["setting"]) not in seen]
     rng.shuffle(rest)
@@ -1185,7 +1188,7 @@ def run(chk, replay=None):
             jobs = []
             for r in results:
                 sc = r["sc"]
-                chk.count(("b",) + sc_key(sc), bool(r.get("staged_before")) and sc["setting"] not in ("nogit", "skipgit"))
+                chk.count(("b",) + sc_key(sc), bool(r.get("staged_before")) and sc["setting"] not in ("nogit", "skipgit", "nogit_stage"))
                 for f in sc["features"] or ["none"]:
                     dist["feat:" + f] = dist.get("feat:" + f, 0) + 1
                 dist["cmd:" + sc["command"]] = dist.get("cmd:" + sc["command"], 0) + 1
@@ -1229,7 +1232,7 @@ def run(chk, replay=None):
     for r in results[:3]:
         chk.sample({"scenario": r["sc"], "trace": r.get("trace"), "model": r.get("model")})
     chk.cov["rule"] = ("(a) one case = a generated Git state (0-3 commits, branches/tag/detached/unborn HEAD, index and work tree mutated from HEAD, 0-2 stash entries) x one sub-command "
-                       "or the stash/add/commit/pop sandwich; non-trivial = the index differs from HEAD or the stash is not empty.  (b) one case = user-state feature subset (<=3 of 10: staged new file / modification / deletion, unstaged edit, untracked file, older stash entry, detached HEAD, staged+unstaged hunks on one path, staged edit of a .gitignore xvc does not write, staged edit of the .gitignore xvc appends to) x xvc command (file track, file list, pipeline step new, check-ignore, root, file recheck; init in a plain Git repository, oracle only) x setting (default, auto_stage, use_git=false, --skip-git, --to-branch); "
+                       "or the stash/add/commit/pop sandwich; non-trivial = the index differs from HEAD or the stash is not empty.  (b) one case = user-state feature subset (<=3 of 10: staged new file / modification / deletion, unstaged edit, untracked file, older stash entry, detached HEAD, staged+unstaged hunks on one path, staged edit of a .gitignore xvc does not write, staged edit of the .gitignore xvc appends to) x xvc command (file track, file list, pipeline step new, check-ignore, root, file recheck; init in a plain Git repository, oracle only) x setting (default, auto_stage, use_git=false, use_git=false with auto_stage, --skip-git, --to-branch); "
                        "non-trivial = something is staged before the run and Git automation is on.  distinct by input.")
     chk.cov["distribution"] = dist
     chk.cov["exhaustive"] = False
